@@ -13,20 +13,42 @@ EXACT_OPS = list(range(0, 13))
 
 
 def gen(rng, nexec):
+    """Histories of the root specification: images 1 (destination), 2 (source), 3 (mask), 4 (solid fill), 5 (second
+    destination, a copy of a reference-counted life), region variables 1..3.  The generator keeps the reference counts
+    so that no call names an image that has gone (the specification would refuse the event)."""
     execs = []
     shapes = [
         [[0, 0, 3, 2]], [[1, 0, 4, 1], [0, 1, 2, 3]], [[0, 0, 2, 2], [3, 0, 5, 2], [0, 3, 5, 4]],
         [[0, 0, 6, 1], [0, 1, 1, 3], [5, 1, 6, 3], [0, 3, 6, 4]], [], [[2, 1, 3, 2]],
         [[-3, -2, 2, 2], [4, 2, 12, 9]],
     ]
+    chan16 = [0, 0xff, 0x100, 0x7fff, 0x8000, 0xff00, 0xfeff, 0xffff, 0x1234, 0xabcd]
     for e in range(nexec):
         out = ["R pipe%d" % e]
         dw, dh = rng.randint(3, 8), rng.randint(2, 5)
-        sw, sh = rng.randint(2, 8), rng.randint(1, 5)
-        out.append("I 1 %d %d %d" % (dw, dh, rng.randrange(1, 2 ** 31)))
-        out.append("I 2 %d %d %d" % (sw, sh, rng.randrange(1, 2 ** 31)))
-        for step in range(rng.randint(4, 9)):
-            k = rng.choice(["init", "init", "algebra", "translate", "clipd", "clips", "srcclip", "comp", "comp", "comp"])
+        sw, sh = rng.randint(1, 8), rng.randint(1, 5)
+        mw, mh = rng.randint(1, 8), rng.randint(1, 5)
+        rich = e % 3 != 0               # every third execution stays in the original scope (a8r8g8b8, no mask)
+        dfmt = rng.choice([0, 0, 1, 2]) if rich else 0
+        sfmt = rng.choice([0, 1, 2, 0]) if rich else 0
+        mfmt = rng.choice([2, 2, 0, 1])
+        out.append("I 1 %d %d %d %d" % (dw, dh, rng.randrange(1, 2 ** 31), dfmt))
+        out.append("I 2 %d %d %d %d" % (sw, sh, rng.randrange(1, 2 ** 31), sfmt))
+        refs = {1: 1, 2: 1}
+        dims = {1: (dw, dh), 2: (sw, sh)}
+        if rich:
+            out.append("I 3 %d %d %d %d" % (mw, mh, rng.randrange(1, 2 ** 31), mfmt))
+            out.append("F 4 %d %d %d %d" % tuple(rng.choice(chan16) for _ in range(4)))
+            refs[3] = refs[4] = 1
+            dims[3] = (mw, mh)
+            if mfmt != 2 and rng.random() < 0.7:
+                out.append("A 3 1")
+        kinds = ["init", "init", "algebra", "translate", "clipd", "clips", "srcclip", "comp", "comp", "comp"]
+        if rich:
+            kinds += ["clipm", "mclip", "repeat", "repeat", "shift", "shift", "ca", "ref", "unref", "fill", "fill",
+                      "comp", "comp", "comp", "solidcomp"]
+        for step in range(rng.randint(4, 12 if rich else 9)):
+            k = rng.choice(kinds)
             if k == "init":
                 v = rng.randint(1, 3)
                 sh_ = rng.choice(shapes)
@@ -42,16 +64,61 @@ def gen(rng, nexec):
                 out.append("r translate %d %d %d" % (rng.randint(1, 3), rng.randint(-2, 2), rng.randint(-1, 1)))
             elif k == "clipd":
                 out.append("K 1 %d" % rng.choice([0, 1, 2, 3, 1, 2]))
-            elif k == "clips":
+            elif k == "clips" and refs.get(2):
                 out.append("K 2 %d" % rng.choice([0, 1, 2, 3]))
-            elif k == "srcclip":
+            elif k == "srcclip" and refs.get(2):
                 out.append("S 2 %d" % rng.randint(0, 1))
-            else:
+            elif k == "clipm" and refs.get(3):
+                out.append("K 3 %d" % rng.choice([0, 1, 2, 3]))
+            elif k == "mclip" and refs.get(3):
+                out.append("S 3 %d" % rng.randint(0, 1))
+            elif k == "repeat":
+                i = rng.choice([2, 3])
+                if refs.get(i):
+                    out.append("P %d %d" % (i, rng.randint(0, 3)))
+            elif k == "shift":
+                i = rng.choice([2, 2, 3])
+                if refs.get(i):
+                    out.append("T %d %d %d" % (i, rng.choice([-9, -2, -1, 0, 1, 2, 3, 17]), rng.choice([-5, -1, 0, 1, 2])))
+            elif k == "ca" and refs.get(3) and mfmt != 2:
+                out.append("A 3 %d" % rng.randint(0, 1))
+            elif k == "ref":
+                i = rng.choice([2, 3, 4])
+                if refs.get(i):
+                    out.append("G %d" % i)
+                    refs[i] += 1
+            elif k == "unref":
+                i = rng.choice([2, 3, 4])
+                if refs.get(i, 0) > 1 or (refs.get(i) == 1 and rng.random() < 0.15):
+                    out.append("U %d" % i)
+                    refs[i] -= 1
+            elif k == "fill":
+                n = rng.choice([1, 1, 2, 3, 5])
+                bx = []
+                for _ in range(n):
+                    x1, y1 = rng.randint(-2, dw), rng.randint(-2, dh)
+                    bx += [x1, y1, x1 + rng.randint(0, dw + 1), y1 + rng.randint(0, dh + 1)]
+                if n > 1 and rng.random() < 0.4:      # a box given twice: drawn once
+                    bx[4:8] = bx[0:4]
+                a = rng.choice(chan16)
+                col = [a] + [min(a, rng.choice(chan16)) if rng.random() < 0.5 else rng.choice(chan16) for _ in range(3)]
+                out.append("B %d 1 %d %d %d %d %d %s" % (rng.choice(EXACT_OPS), col[0], col[1], col[2], col[3], n,
+                                                         " ".join(map(str, bx))))
+            elif k in ("comp", "solidcomp"):
                 w, h = rng.randint(0, dw + 1), rng.randint(1, dh + 1)
-                out.append("C %d 2 1 %d %d %d %d %d %d" % (rng.choice(EXACT_OPS), rng.randint(-1, 2), rng.randint(-1, 1),
-                                                         rng.randint(-1, dw - 1), rng.randint(-1, dh - 1), w, h))
-                if rng.random() < 0.3:      # the destination as its own source region history: composite d -> s
-                    out.append("C %d 1 2 0 0 0 0 %d %d" % (rng.choice([1, 3, 12]), sw, sh))
+                s_ = 4 if (k == "solidcomp" and refs.get(4)) else 2
+                if not refs.get(s_):
+                    continue
+                m_ = 3 if (rich and refs.get(3) and rng.random() < 0.6) else 0
+                if rich and m_ and refs.get(4) and rng.random() < 0.1:
+                    m_ = 4                                  # a solid mask
+                out.append("C %d %d %d 1 %d %d %d %d %d %d %d %d" % (
+                    rng.choice(EXACT_OPS), s_, m_, rng.randint(-1, 2), rng.randint(-1, 1),
+                    rng.randint(-1, 2) if m_ else 0, rng.randint(-1, 1) if m_ else 0,
+                    rng.randint(-1, dw - 1), rng.randint(-1, dh - 1), w, h))
+                if rng.random() < 0.3 and refs.get(2) and not rich:
+                    # the destination as its own source region history: composite d -> s
+                    out.append("C %d 1 0 2 0 0 0 0 0 0 %d %d" % (rng.choice([1, 3, 12]), sw, sh))
         execs.append(out)
     return execs
 
@@ -68,6 +135,18 @@ def stage(chk, args, configs=("", "fast mmx sse2 ssse3")):
     rn = vf.tlc_mc(os.path.join(base, "PixmanMC.tla"), cfg=os.path.join(base, "PixmanMC_neg.cfg"), workers=4,
                    expect_violation=True)
     chk.add_tlc(rn, "negative config (source clip applied although disabled; must be rejected)")
+    # the root specification as a state machine: every history of setters / reference counting / region calls /
+    # composites / fills up to a depth, with the relations between its pieces evaluated in every state
+    rs = vf.tlc_mc(os.path.join(base, "PixmanSysMC.tla"),
+                   cfg=os.path.join(base, "PixmanSysMC.cfg" if quick else "PixmanSysMC_deep.cfg"), workers=8, timeout=1500)
+    chk.add_tlc(rs, "model check PixmanSysMC (histories of the root specification: Frame, FillIsComp, ShortcutSound, SolidIsTile, "
+                    "OpaqueFormat, TranslateIsOffset, RefsPositive, UnaffectedByHistory)")
+    if "violated" in rs.out:
+        raise vf.Infra("PixmanSysMC violated:\n" + rs.out[-2000:])
+    for neg, what in (("PixmanSysMC_neg_fill.cfg", "fill_boxes drawn as the union of the boxes (doubly covered pixels blended once)"),
+                      ("PixmanSysMC_neg_clip.cfg", "a source clip that moves with the image's transform")):
+        rn = vf.tlc_mc(os.path.join(base, "PixmanSysMC.tla"), cfg=os.path.join(base, neg), workers=2, expect_violation=True)
+        chk.add_tlc(rn, "negative config (%s; must be rejected)" % what)
     exe, px = vf.build_driver("drv_pipeline", "plain")
     execs = gen(rng, 240 if quick else 3000)
     traces = []
@@ -81,7 +160,7 @@ def stage(chk, args, configs=("", "fast mmx sse2 ssse3")):
             tr = os.path.join(wd, "p%d_%d.ndjson" % (ci, b))
             vf.run_driver([exe, sp, tr], tr, env={"PIXMAN_DISABLE": dis}, timeout=600)
             traces.append(tr)
-            ncomp += sum(1 for l in open(tr) if l.startswith('{"e":"Comp"'))
+            ncomp += sum(1 for l in open(tr) if l.startswith('{"e":"Comp"') or l.startswith('{"e":"Fill"'))
     chk.extra["pipeline_composites"] = ncomp
     chk.evaluations += ncomp
     chk.sample({"pipeline_script": execs[0][:8]})
